@@ -16,7 +16,11 @@ RULE = (
     "with a random native-operation predicate / split_circuit); gates: all built-ins, custom numeric and "
     "symbolic gates, controlled/dagger/integer-power wrappers on uniformly drawn ordered qubit tuples; a "
     "case is non-trivial when it has >=2 operations and (a multi-qubit operation on a tuple that is not "
-    "ascending-adjacent, or an idle qubit, or a native/non-native split with >=2 segments); distinct = "
+    "ascending-adjacent, or an idle qubit, or a native/non-native split with >=2 segments); class arity: gates on "
+    "3 - 5 qubits (1- and 2-qubit gates under 1 - 4 controls, dense custom gates, daggers) on ordered tuples drawn by "
+    "shape (gap-free block ascending / reversed / rotated / interior permuted with both ends in place / shuffled; "
+    "gapped ascending / ends in place / shuffled; spread to both ends of the register; not an involution), tallied; "
+    "distinct = "
     "distinct canonical case strings"
 )
 ASSUMPTIONS = [
@@ -24,7 +28,8 @@ ASSUMPTIONS = [
     "rv.ref.linalg.embed (bit arithmetic on basis indices, qubit 0 = most significant bit)",
     "tolerance 1e-9 (max-abs) on matrices and state vectors of unitary circuits",
     "symbolic results are compared numerically at random assignments of their symbols",
-    "widths <= 6 (quick) / 8 (thorough) numeric, <= 3/4 symbolic",
+    "widths <= 6 (quick) / 8 (thorough) numeric, <= 3/4 symbolic; class wide: 9 - 12 qubits, step-wise application and "
+    "the bundled simulator only",
 ]
 DECIDING = [
     "Circuit.to_unitary", "GateOperation.lifted_matrix", "GateOperation.apply", "MultiPhaseOperation.apply",
@@ -38,7 +43,7 @@ TOL = 1e-9
 
 
 def classes(tier):
-    return ["numeric", "symbolic", "concat", "sim_bundled", "sim_partial", "split", "history", "wide"]
+    return ["numeric", "symbolic", "concat", "sim_bundled", "sim_partial", "split", "history", "wide", "arity"]
 
 
 # ----------------------------------------------------------------------------- helpers
@@ -630,10 +635,10 @@ def run_case(ctx):
     if cls == "wide":
         # registers of 9 and 10 qubits (beyond a byte of basis-index bits): few operations, step-wise application
         # and the bundled simulator; the whole-circuit matrix is not built
-        n = rng.choice([9, 9, 10])
+        n = rng.choice([9, 9, 10, 10, 11, 11, 12])
         ops = []
         descs = []
-        for _ in range(rng.randint(1, 3)):
+        for _ in range(rng.randint(1, 3) if n <= 10 else rng.randint(1, 2)):
             g, d = GC.rand_gate(rng, nprng, 2, wrap=0.2, custom=0.1, allow_u3=False)
             qs = GC.rand_qubits(rng, g.num_qubits, n)
             if rng.random() < 0.6:  # make sure the extreme positions occur
@@ -656,6 +661,47 @@ def run_case(ctx):
                   lambda: f"step-wise apply of {c!r} on {n} qubits differs from the reference")
         init = L.random_state(nprng, 2**n)
         SymbolicSimulator().get_wavefunction(c, init)
+        return
+    if cls == "arity":
+        # gates on 3, 4 and 5 qubits (controls on 1- and 2-qubit gates, dense custom gates) on ordered tuples of every
+        # shape (rv.gen.tupleshapes): a gap-free block with its interior permuted, reversed, rotated; gaps with the ends
+        # in place; tuples that are / are not their own inverse as permutations; positions at both ends of the register
+        from ..gen import tupleshapes as TS
+
+        n = rng.choice([4, 5, 5, 6, 6, wmax])
+        ops, descs, shapes = [], [], []
+        for j in range(rng.randint(1, 3)):
+            k = rng.choice([3, 4, 4, 4, 5]) if j == 0 else rng.choice([1, 2, 3, 4])
+            k = min(k, n)
+            base_nq = rng.choice([1, 2]) if k >= 3 else k
+            if k == 3 and rng.random() < 0.3:
+                base_nq = 3
+            g, d = GC.rand_gate(rng, nprng, base_nq, wrap=0.15, custom=0.3, allow_u3=False)
+            if g.num_qubits < k:
+                g, d = g.controlled(k - g.num_qubits), f"C{k - g.num_qubits}.{d}"
+            if rng.random() < 0.3:
+                g, d = g.dagger, f"D.{d}"
+            qs, shape = TS.shaped_tuple(rng, g.num_qubits, n, TS.SHAPES[(ctx.index + j) % len(TS.SHAPES)] if j == 0 else None)
+            ops.append(g(*qs))
+            descs.append(f"{d}@{','.join(map(str, qs))}")
+            shapes.append(TS.shape_of(qs))
+        c = Circuit(ops, n_qubits=n) if rng.random() < 0.7 else Circuit(ops)
+        for sh in shapes:
+            ctx.mon.note("arity:tuple-shape:" + sh)
+        ctx.mon.note(f"arity:largest-gate:{max(op.gate.num_qubits for op in ops)}q")
+        ctx.describe(f"arity n={c.n_qubits} [" + "; ".join(descs) + "]", True)
+        try:
+            c.to_unitary()
+        except Exception:
+            return  # judged by the hook
+        v = L.random_state(nprng, 2**c.n_qubits, normalised=False)
+        w = v
+        for op in c.operations:
+            w = op.apply(w)
+        ref = GC.ref_unitary(c) @ v
+        ctx.check("stepwise-final", L.maxdiff(np.asarray(w, dtype=complex), ref) <= TOL * max(1.0, float(np.abs(ref).max())),
+                  lambda: f"step-wise apply of {c!r} differs from the reference product")
+        SymbolicSimulator().get_wavefunction(c, L.random_state(nprng, 2**c.n_qubits))
         return
     if cls == "split":
         n = rng.choice([1, 2, 3, 4, 5])
